@@ -9,7 +9,10 @@ Transcribed from `src/scippneutron/conversion/tof.py`:
 
 The code works with up to three floating-point types at once:
 
-* `γ` — float64: the constant `m_n/2` converted by `sc.to_unit`, and the lengths `L1`, `L2`;
+* `γ` — float64: the constant `m_n/2` converted by `sc.to_unit`;
+* `lam1`, `lam2` — the dtypes of the lengths `L1`, `L2` (float64 from the beamline graph, but float32 operands are
+  accepted): a length enters as `length.astype(dtype)` in `t0` and as `c * L**2` (the square in the length's own
+  precision, the product with the float64 constant in float64) in `scale` — the two conversions of `LenCast`;
 * `β` — `float_dtype(energy)`: the type of the energy operand (`as_float_type(c, energy)`);
 * `α` — `_common_dtype(energy, tof)`: float32 iff *both* energy and tof are float32.
 
@@ -47,8 +50,21 @@ structure Casts (γ β α : Type) where
 
 def Casts.id (α : Type) : Casts α α α := ⟨fun x => x, fun x => x, fun x => x⟩
 
+/-- the conversions applied to a length operand of type `lam` -/
+structure LenCast (lam γ α : Type) where
+  /-- `length.astype(dtype, copy=False)` with `dtype = _common_dtype(energy, tof)` -/
+  toA : lam → α
+  /-- promotion of `L**2` in the product with the float64 constant (`c * L**2`) -/
+  toG : lam → γ
+
+def LenCast.id (α : Type) : LenCast α α α := ⟨fun x => x, fun x => x⟩
+
+/-- dtype of the result of both kernels: `_common_dtype(energy, tof)` — the dtypes of `L1` and `L2` do not
+enter (lengths are converted to that dtype) -/
+def energyTransferDType (energy tof _L1 _L2 : DType) : DType := commonDType energy tof
+
 section
-variable {γ β α : Type}
+variable {γ β α lam1 lam2 lam : Type}
 
 /-- `_energy_constant`: `to_unit(m_n/2, energy_unit * (tof_unit/length_unit)**2)`; `mHalf` is the SI
 value of `m_n/2`, `sE st sL` are the SI scales of the energy, time and length units. -/
@@ -56,24 +72,27 @@ def energyConstant [Mul γ] [Div γ] (mHalf sE st sL : γ) : γ :=
   mHalf / (sE * ((st / sL) * (st / sL)))
 
 /-- `_energy_transfer_t0(energy, tof, length)` with `c = _energy_constant(unit(energy), tof, length)` -/
-def energyTransferT0 [Mul α] [Div β] [Trans β] (k : Casts γ β α) (c : γ) (energy : β) (length : γ) : α :=
-  k.ga length * k.ba (Trans.sqrt (k.gb c / energy))
+def energyTransferT0 [Mul α] [Div β] [Trans β] (k : Casts γ β α) (kl : LenCast lam γ α) (c : γ) (energy : β)
+    (length : lam) : α :=
+  kl.toA length * k.ba (Trans.sqrt (k.gb c / energy))
 
 /-- `energy_transfer_direct_from_tof`; `c1`, `c2` are the constants for the units of `L1`, `L2` -/
 def energyTransferDirect [Sub α] [Mul α] [Div α] [LE α] [OfNat α 0] [∀ a b : α, Decidable (a ≤ b)]
-    [Mul γ] [Div β] [Trans β]
-    (k : Casts γ β α) (c1 c2 : γ) (tof : α) (L1 L2 : γ) (Ei : β) : Option α :=
-  let t0 := energyTransferT0 k c1 Ei L1
-  let scale := k.ga (c2 * (L2 * L2))
+    [Mul γ] [Div β] [Trans β] [Mul lam2]
+    (k : Casts γ β α) (k1 : LenCast lam1 γ α) (k2 : LenCast lam2 γ α) (c1 c2 : γ) (tof : α) (L1 : lam1) (L2 : lam2)
+    (Ei : β) : Option α :=
+  let t0 := energyTransferT0 k k1 c1 Ei L1
+  let scale := k.ga (c2 * k2.toG (L2 * L2))
   let deltaTof := tof - t0
   if deltaTof ≤ 0 then none else some (k.ba Ei - scale / (deltaTof * deltaTof))
 
 /-- `energy_transfer_indirect_from_tof` (note `delta_tof = -t0 + tof`) -/
 def energyTransferIndirect [Add α] [Neg α] [Sub α] [Mul α] [Div α] [LE α] [OfNat α 0]
-    [∀ a b : α, Decidable (a ≤ b)] [Mul γ] [Div β] [Trans β]
-    (k : Casts γ β α) (c1 c2 : γ) (tof : α) (L1 L2 : γ) (Ef : β) : Option α :=
-  let t0 := energyTransferT0 k c2 Ef L2
-  let scale := k.ga (c1 * (L1 * L1))
+    [∀ a b : α, Decidable (a ≤ b)] [Mul γ] [Div β] [Trans β] [Mul lam1]
+    (k : Casts γ β α) (k1 : LenCast lam1 γ α) (k2 : LenCast lam2 γ α) (c1 c2 : γ) (tof : α) (L1 : lam1) (L2 : lam2)
+    (Ef : β) : Option α :=
+  let t0 := energyTransferT0 k k2 c2 Ef L2
+  let scale := k.ga (c1 * k1.toG (L1 * L1))
   let deltaTof := -t0 + tof
   if deltaTof ≤ 0 then none else some (scale / (deltaTof * deltaTof) - k.ba Ef)
 
@@ -85,12 +104,12 @@ variable {α : Type} [Add α] [Neg α] [Sub α] [Mul α] [Div α] [LE α] [OfNat
   [∀ a b : α, Decidable (a ≤ b)] [Trans α]
 
 def directFromUnits (mHalf sE st sL1 sL2 tof L1 L2 Ei : α) : Option α :=
-  energyTransferDirect (Casts.id α) (energyConstant mHalf sE st sL1) (energyConstant mHalf sE st sL2)
-    tof L1 L2 Ei
+  energyTransferDirect (Casts.id α) (LenCast.id α) (LenCast.id α) (energyConstant mHalf sE st sL1)
+    (energyConstant mHalf sE st sL2) tof L1 L2 Ei
 
 def indirectFromUnits (mHalf sE st sL1 sL2 tof L1 L2 Ef : α) : Option α :=
-  energyTransferIndirect (Casts.id α) (energyConstant mHalf sE st sL1) (energyConstant mHalf sE st sL2)
-    tof L1 L2 Ef
+  energyTransferIndirect (Casts.id α) (LenCast.id α) (LenCast.id α) (energyConstant mHalf sE st sL1)
+    (energyConstant mHalf sE st sL2) tof L1 L2 Ef
 
 end
 
